@@ -38,12 +38,15 @@ def r1_totality(ctx):
 
 
 def _try_switch(body, cond):
+    """The switch tests the result of a `?` (Try::branch) - error plumbing, not a data-dependent guard."""
     if cond["kind"] != "variant":
         return False
-    tr = tracer(body)
-    for o in tr.place(cond["place"]):
-        if o.kind == "call" and "Try" in callee_decl(body.blocks[o.data].term) and callee_decl(body.blocks[o.data].term).endswith("::branch"):
-            return True
+    l = cond["place"]["l"]
+    for bb, t in body.calls():
+        if t.get("dest", {}).get("l") == l and not t["dest"]["p"]:
+            d = callee_decl(t)
+            if d.endswith("Try::branch"):
+                return True
     return False
 
 
